@@ -96,14 +96,18 @@ func c09Run(c c09Case) error {
 	if again.Key != base.Key || again.Ent != base.Ent || again.Pos != base.Pos || again.HavePw != base.HavePw {
 		return fmt.Errorf("same recipe, same source bytes, different outcome: %q (%d bytes) vs %q (%d bytes)", base.Key, base.Pos, again.Key, again.Pos)
 	}
-	// 1b. every announced draw consumes source bytes
-	for i, d := range base.Draws {
-		if d.Bound > 0 && d.Bytes < 4 {
-			return fmt.Errorf("draw %d (1 of %d) consumed %d bytes of the random source; every choice must come from it", i, d.Bound, d.Bytes)
+	// 1b. every announced choice among two or more alternatives is paid for
+	// with a 32-bit word of the source (C01 fixes the word size). Judged on
+	// the total so that an implementation that reads the words of one candidate
+	// ahead of its draws is not blamed; a single alternative needs no bytes.
+	need := 0
+	for _, d := range base.Draws {
+		if d.Bound > 1 {
+			need += 4
 		}
-		if d.Bytes%4 != 0 {
-			return fmt.Errorf("draw %d consumed %d bytes (not whole 32-bit words)", i, d.Bytes)
-		}
+	}
+	if base.Pos < need {
+		return fmt.Errorf("%d choices among two or more alternatives were made but only %d bytes of the random source were consumed (%d needed): some choice did not come from it", need/4, base.Pos, need)
 	}
 	if base.HavePw && len(base.Draws) == 0 {
 		// allowed only when nothing is random: one word, one char, no caps
@@ -260,7 +264,10 @@ func c09ConcRun(c c09Conc) error {
 			return err
 		}
 		if atomic.LoadUint64(&src.ctr) != before+1 {
-			return &ev.Skip{Why: "a one-word generation does not consume exactly one source read"}
+			// the accounting below identifies one source read with one word;
+			// an implementation that reads differently is not judged here
+			ev.Class("accounting_not_applicable_reads_differ")
+			return nil
 		}
 		want[p.String()]++
 	}
@@ -337,33 +344,6 @@ func TestC09(t *testing.T) {
 		return
 	}
 	ev.Check(t, "c09_source", ev.N(2400, 40000), c09Gen, c09Run)
-	// every draw a long recipe announces is derived from the source AND used:
-	// with all other choices fixed, its alternatives give different passwords
-	// (a draw that is read and then thrown away decides nothing - the choice it
-	// stands for was not derived from the source bytes)
-	ev.Check(t, "c09_every_draw_matters", ev.N(32, 320), func(t *rapid.T) supWL {
-		w := gen.WLSpec{Words: gen.WordList(t, gen.WordListOpts{Min: 2, Max: 5, AllCapable: true}),
-			Length: rapid.IntRange(30, 130).Draw(t, "long_length"),
-			Scheme: rapid.SampledFrom([]string{"one", "random", "random"}).Draw(t, "scheme"),
-			Sep:    gen.SepSpec{Kind: "const", Const: rapid.SampledFrom([]string{"", "-"}).Draw(t, "sep")}}
-		return supWL{W: w, Key: rapid.Uint64().Draw(t, "key")}
-	}, func(c supWL) error {
-		kept := oracle.Kept(c.W.Words)
-		if !oracle.PremiseOK(kept) || !oracle.AllCapitalisable(kept) || len(kept) < 2 {
-			return &ev.Skip{Why: "premise"}
-		}
-		r, _, err := buildWL(c.W)
-		if err != nil {
-			return &ev.Skip{Why: "empty"}
-		}
-		n, err := localInjectivity(r.Generate, c.Key, 400, 0, 256, nil)
-		ev.Leaves(int64(n))
-		if err == nil {
-			ev.Class("every_draw_matters")
-			ev.NonTrivial(fmt.Sprintf("matters|%+v", c.W))
-		}
-		return err
-	})
 	ev.Check(t, "c09_concurrent_accounting", ev.N(32, 320), func(t *rapid.T) c09Conc {
 		return c09Conc{Key: rapid.Uint64().Draw(t, "key"), G: rapid.IntRange(2, 12).Draw(t, "g"), L: rapid.IntRange(1, 5).Draw(t, "l"), I: rapid.IntRange(20, 150).Draw(t, "i")}
 	}, c09ConcRun)
